@@ -116,7 +116,9 @@ func (r *chunkReader) Read(p []byte) (int, error) {
 	}
 	n := copy(p, r.chunks[r.i])
 	if n < len(r.chunks[r.i]) {
-		panic("verif: chunk larger than the implementation's read buffer")
+		// more than the caller's buffer holds: a reader fills the buffer and keeps the rest for the next call
+		r.chunks[r.i] = r.chunks[r.i][n:]
+		return n, nil
 	}
 	r.i++
 	if r.cfg.EOFWithLast && r.i == len(r.chunks) {
@@ -137,7 +139,7 @@ func (m *M) Feed(chunks [][]byte, cfg Config, wantKeys, wantSnaps bool) (o *Out)
 func (m *M) FeedFrom(chunks [][]byte, cfg Config, wantKeys, wantSnaps bool, from int) (o *Out) {
 	o = &Out{ErrChunk: -1}
 	var inst any
-	r := &chunkReader{chunks: chunks, cfg: cfg}
+	r := &chunkReader{chunks: append([][]byte{}, chunks...), cfg: cfg}
 	if wantKeys || wantSnaps {
 		r.onRead = func() {
 			if inst == nil || r.i < from {
